@@ -43,7 +43,7 @@ PROPS["C12"] = {
             "non-canonical forms (leading zeros, signs, spaces, hex, exponent), lengths 0,1,62..65,16382..16385, element counts up to 16384, "
             "scores = every special value + random bit patterns; both real encoders' bytes compared with the model encoder and both decoded "
             "back. cmp/ql: compact trees with every ziplist header at its limits, forced 5-byte prevlen, entries >= 254 bytes, intsets of each "
-            "width, list/hash/zset ziplists of 65534..131072 entries (16-bit count saturated), zipmaps with free bytes, item lengths 251..256/65536 and 252..300 pairs, quicklists; blobs wrapped raw (6/14/32/64-bit "
+            "width, list/hash/zset ziplists of 65534..131072 entries (16-bit count saturated; among them strings of 251-450 bytes, 5-byte prevlen forms, 32-bit string headers, every integer width), zipmaps with free bytes, item lengths 251..256/65536 and 252..300 pairs, quicklists; blobs wrapped raw (6/14/32/64-bit "
             "length forms) or LZF (random token streams incl. overlapping references); serialized by the harness' own serializer, decoded by "
             "the real DecodeDump, compared with logicalOf(tree) and with the spec serializer's digest. dec: hand-written corner payloads + "
             "mutated valid payloads (truncation, bit flips, byte substitution/insertion, type byte change, broken trailer), model decoder vs "
